@@ -830,6 +830,78 @@ def run_H(case):
 
 
 # =================================================================================================
+# space L: long rasters - deviations below a per-pixel tolerance add up to whole pixels over 2000 pixels
+# =================================================================================================
+SHAPES_L = [(16, 2000), (2000, 16), (2000, 2000)]
+# relation name -> (class, builder of the destination->source pixel map M for a destination of shape (ny, nx))
+REL_L = {}
+for _a in (0.05, -0.05, 0.03, -0.03, 0.01):
+    REL_L[f"rot{_a:+}deg@corner"] = ("rot-corner", lambda ny, nx, a=_a: Affine.rotation(a))
+    REL_L[f"rot{_a:+}deg@centre"] = ("rot-centre", lambda ny, nx, a=_a: Affine.rotation(a, (nx / 2, ny / 2)))
+REL_L["shear-x9e-4"] = ("shear-x", lambda ny, nx: Affine(1.0, 9e-4, 0.0, 0.0, 1.0, 0.0))
+REL_L["shear-y9e-4"] = ("shear-y", lambda ny, nx: Affine(1.0, 0.0, 0.0, 9e-4, 1.0, 0.0))
+for _s in (1 + 9e-4, 1 - 9e-4):
+    REL_L[f"scale{_s!r}"] = ("scale1", lambda ny, nx, s_=_s: Affine.scale(s_))
+for _s in (2 + 9e-4, 2 - 9e-4):
+    REL_L[f"scale{_s!r}"] = ("scale2", lambda ny, nx, s_=_s: Affine.scale(s_))
+REL_L_QUICK_SQUARE = ("rot+0.05deg@corner", "rot-0.03deg@centre", "shear-x9e-4", "scale1.0009")
+SUB_L = (0.0, 4e-4, -4e-4)
+# placement -> (shift of the destination in source pixels, growth of the destination shape)
+PLACE_L = {"same-extent": ((0, 0), 0), "over-left": ((-50, 0), 0), "over-right": ((50, 0), 0), "over-top": ((0, -50), 0),
+           "over-bottom": ((0, 50), 0), "over-all-sides": ((-50, -50), 100)}
+OPTS_L = {"default": {}, "pad0-align0": {"padding": 0, "align": 0}}
+SRC_L = ((0.25, 0.0, 16.0, 0.0, -0.5, 32.0), "EPSG:3857")  # dyadic, non-square pixels
+
+
+def gen_L(thorough):
+    for sshape in SHAPES_L:
+        square = sshape == (2000, 2000)
+        for rel in REL_L:
+            if square and not thorough and rel not in REL_L_QUICK_SQUARE:
+                continue
+            for sub in (SUB_L if thorough or not square else SUB_L[:1]):
+                for place in PLACE_L:
+                    for opt in OPTS_L:
+                        yield (sshape, rel, sub, place, opt)
+
+
+def run_L(case):
+    sshape, rel, sub, place, opt = case
+    (px_, py_), grow = PLACE_L[place]
+    dshape = (sshape[0] + grow, sshape[1] + grow)
+    relc, mk = REL_L[rel]
+    M = mk(*dshape)
+    scale_rel = relc.startswith("scale")
+    k = round(M.a) if scale_rel else 1  # a scale-2 destination covers the same extent with half the pixels
+    if k == 2:
+        dshape = (max(1, dshape[0] // 2), max(1, dshape[1] // 2))
+    A = Affine.translation(px_ + sub, py_ + sub) * M
+    S = Affine(*SRC_L[0])
+    src = GeoBox(sshape, S, SRC_L[1])
+    dst = GeoBox(dshape, S * A, SRC_L[1])
+    kw = OPTS_L[opt]
+    info = OV.compute_reproject_roi(src, dst, **kw)
+
+    # numpy float64 brute force over every destination pixel centre, through the GeoBoxes' own affines
+    xx, yy = centres(dshape)
+    SX, SY = world_to_pix(affine6(src.transform), *pix_to_world(affine6(dst.transform), xx, yy))
+    del xx, yy
+    # per-axis scale as the code defines it (R*W*S): |first column|, |det| / |first column|
+    n0 = math.hypot(M.a, M.d)
+    exp = (n0, abs(M.a * M.e - M.b * M.d) / n0)
+    subc = "whole-px" if sub == 0 else "sub-tolerance-shift"
+    tag = f"long:{relc}:{place}:{opt}"
+    what = (f"src=GeoBox({sshape}, Affine{SRC_L[0]}, {SRC_L[1]}); dst=GeoBox({dshape}, src.affine*A, crs) with A(dst->src px)="
+            f"translation({px_ + sub!r},{py_ + sub!r})*Affine{tuple(M)[:6]} [{rel}, {subc}]; compute_reproject_roi(src, dst, {kw})")
+    r = R()
+    n_need = judge(r, tag, what, info, sshape, dshape, SX, SY, False, exp, 1e-9)
+    check_transform(r, tag, what, info, dshape, SX, SY, corners_only=True)
+    r.outcome = f"long:{relc}:{'paste' if info.paste_ok else 'sampled'}:rs{min(int(info.read_shrink), 4)}:{_cover(info, dshape, n_need)}"
+    r.nontrivial = n_need > 0
+    return r
+
+
+# =================================================================================================
 def slices(tier):
     th = tier == "thorough"
     s_all = (0, 1, 2)
@@ -862,6 +934,11 @@ def slices(tier):
         e1.Slice("G-overhang", gen_G, run_G,
                  "lon/lat rasters (2.5/5/10 deg, <= 48x96) overhanging the poles and/or +-180 by half a pixel or several, as source "
                  "and as destination, against world rasters in EPSG:4087, 6933, 8857, Mollweide, 3857: the documented lon/lat clamp"),
+        e1.Slice("long-rasters", lambda: gen_L(th), run_L,
+                 "same CRS, shapes (16,2000), (2000,16), (2000,2000): rotation +-0.05/+-0.03/0.01 deg about a corner and about the "
+                 "centre, shear 9e-4 in x / y, scale 1+-9e-4 and 2+-9e-4, x whole-pixel and +-4e-4 px shifts x 6 placements (same extent, "
+                 "50 px overhang on each side / all sides) x {default, padding=0 align=0}; vectorised brute force over all pixels "
+                 "(quick: 4 relations and whole-pixel shifts only for the 2000x2000 shape)"),
         e1.Slice("H-history", lambda: gen_H(3 if th else 2), run_H,
                  "8 target pairs x every sequence of <= 2 (thorough 3) of 16 interfering public calls (get_scale_at_point with r in "
                  "{None,0,0.5,16,1e3} on the same/another transform, plans of other pairs, native_pix_transform, out-of-range "
@@ -888,9 +965,11 @@ def main(ctx):
               "continental": CONTINENTAL},
         "G": {"projections": list(PROJ_G), "geo_pixel_deg": RES_G, "lat_overhang": LAT_G, "lon_overhang": LON_G,
               "projected_pixel_deg_equiv": PDEG_G, "padding_align": PADAL_G, "directions": ["geo-src", "geo-dst"], "max_geo_raster": MAX_G},
+        "L": {"shapes": SHAPES_L, "relations": list(REL_L), "shifts_px": SUB_L, "placements": {k: list(v) for k, v in PLACE_L.items()},
+              "options": list(OPTS_L), "quick_2000x2000_relations": REL_L_QUICK_SQUARE},
         "H": {"pairs": {k: list(v) for k, v in PAIRS_H.items()}, "interfering_calls": list(CALLS_H), "max_sequence": "2 (quick) / 3 (thorough)",
               "other_pair": list(OTHER_H)},
-        "max_raster": "48x48 (A, B); 48x96 geographic / 72x72 projected (G)", "eps_px": EPS,
+        "max_raster": "2100x2100 (L); 48x48 (A, B); 48x96 geographic / 72x72 projected (G)", "eps_px": EPS,
     }
     ctx.assumptions = [
         "a pyproj.Transformer built in the harness from EPSG codes (always_xy) is the reference for CRS maths",
